@@ -514,7 +514,8 @@ PROPS = {
                        "critical sections are not modelled; schedules of the real crate are sampled. Stated for plain columns "
                        "(rc / preimage columns weaken as in C07). Trusted: Lean kernel, hook fixes/hook-c05.diff, harness oracles."),
         "lean": ["Pdb.Props.C05", "Pdb.Props.C05Slot", "Pdb.Proofs.C05Driver", "Pdb.Proofs.Order"],
-        "harness": [{"cmd": "c05", "quick": 12, "thorough": 36, "timeout": 3000}],
+        "harness": [{"cmd": "c05", "quick": 12, "thorough": 36, "timeout": 3000},
+                    {"cmd": "c05bt", "quick": 4, "thorough": 24, "model": False, "timeout": 3000}],
         "rule": ("cases from one SplitMix64 state, kind = seed % 6 (a run covers the kinds in turn): 0|1 threaded stress (4..8 keys bumped together per transaction, "
                  "value sizes from 16 B to 40 kB incl. multipart so entries change tier, filler thread growing one index chunk: 2..5 "
                  "index growths per case, 4..6 readers, seeded delays at the yield points), 2 deterministic F11 (reader parked between "
@@ -624,7 +625,8 @@ PROPS = {
                        "ed Dereference is not mirrored in the commit overlay (C04r_lag_witness): readers see it after process_commits, which is "
                        "C07's carve-out, not a C04 violation."),
         "lean": ["Pdb.Props.C04", "Pdb.Props.C04b", "Pdb.Props.C04c", "Pdb.Props.C04r", "Pdb.Props.C04d", "Pdb.Props.C14Dump"],
-        "harness": [{"cmd": "c04", "quick": 150, "thorough": 800, "max_search": 3000, "timeout": 7200}],
+        "harness": [{"cmd": "c04", "quick": 150, "thorough": 800, "max_search": 3000, "timeout": 7200},
+                    {"cmd": "c05bt", "quick": 3, "thorough": 12, "model": False, "timeout": 3000}],
         "rule": ("one SplitMix64 state per case: btree column (plain / lz4; one case in four ref_counted + preimage: Set / Dereference / "
                  "Reference with repeated keys in one transaction, value = function of the key, oracle = independent (value, count) map: "
                  "exact with an empty queue, while commits are queued every live key shown / nothing never-visible shown / no live key "
